@@ -82,4 +82,28 @@ func sortedStrings(m map[string]int) []string {
 	return ks
 }
 
-var _ = core.Held
+func init() {
+	// thorough tier: half of the cases run with every yield site of f1 perturbed (a yield, a short spin
+	// or a sleep of up to 2 ms with probability 2 %). The sites sit between critical sections, so every
+	// resulting schedule is one the program can have. Cases that script their own hook schedule
+	// install their controller over this one.
+	core.BeforeCase = func(c *core.Case) func(o *core.Outcome) {
+		if c.Tier != "thorough" {
+			return nil
+		}
+		r := c.Rng("perturb-all")
+		if r.IntN(2) == 0 {
+			return nil
+		}
+		hc := engine.NewHookCtl(r.Uint64())
+		hc.Perturb("*", 0.02)
+		hc.Install()
+		return func(o *core.Outcome) {
+			hc.Uninstall()
+			o.AddObs("cases_with_all_sites_perturbed", 1)
+			for site, n := range hc.ReachedCounts() {
+				o.AddObs("perturbed-site:"+site, n)
+			}
+		}
+	}
+}
